@@ -1,5 +1,5 @@
 (* C18: computed witness for the prefix class and the bounded sweep of the relational oracle over the
-   model (all constructor spines to depth 2 over the leaves String, i32, PathBuf, Uuid, DateTime<Utc>,
+   model (all constructor spines to depth 1 here, depth 2 in C18Sweep2.v over the leaves String, i32, PathBuf, Uuid, DateTime<Utc>,
    User; table PathBuf -> string, Uuid -> number, DateTime<Utc> -> boolean). *)
 From Coq Require Import String Ascii.
 From Coq Require Import List Arith Bool.
@@ -24,13 +24,15 @@ Definition next18 (level : list rty) : list rty :=
                               (seq 0 (arity c))) cons_all.
 Definition spines18_2 : list rty := leaves18 ++ next18 leaves18 ++ next18 (next18 leaves18).
 
+Definition spines18_1 : list rty := leaves18 ++ next18 leaves18.
+
 Definition subst_at (m : mapping) (s : site) (md : mode) (t : rty) : bool :=
   match emit_type s md m t, emit_type s md [] t with
   | Some w, Some wo => kf_C18 s md m t || c18_ok (site_is_type s md) m t w wo
   | _, _ => false
   end.
 
-Lemma sweep18_depth2 : sweep (subst_at table18) spines18_2 = true /\ forallb (dom_m table18) spines18_2 = true.
+Lemma sweep18_depth1 : sweep (subst_at table18) spines18_1 = true /\ forallb (dom_m table18) spines18_1 = true.
 Proof. vm_compute. split; reflexivity. Qed.
 
 Definition w18_prefix : rty := RPath (L "Vec") [RPath (L "Vec") [lf "PathBuf"]].
@@ -56,9 +58,9 @@ Lemma result_comma_refuted :
 Proof. vm_compute. repeat split; reflexivity. Qed.
 
 Lemma sweep18_premises_example :
-  exists t, In t spines18_2 /\ tts t = L "Option<Vec<Uuid>>" /\ kf_C18 SReturn MZod table18 t = false.
+  exists t, In t spines18_1 /\ tts t = L "Option<Uuid>" /\ kf_C18 SReturn MZod table18 t = false.
 Proof.
-  assert (H : existsb (fun x => str_eqb (tts x) (L "Option<Vec<Uuid>>") && negb (kf_C18 SReturn MZod table18 x)) spines18_2 = true)
+  assert (H : existsb (fun x => str_eqb (tts x) (L "Option<Uuid>") && negb (kf_C18 SReturn MZod table18 x)) spines18_1 = true)
     by (vm_compute; reflexivity).
   apply existsb_exists in H. destruct H as (x & Hin & Hp). apply andb_true_iff in Hp as [Hn Hk].
   exists x. split; [exact Hin|]. split; [apply str_eqb_eq; exact Hn | apply negb_true_iff; exact Hk].
